@@ -36,7 +36,7 @@ class Report(object):
 
 class Engine(object):
     def __init__(self, spec, workdir, name='h', lazy_all=False, hooks=None, count=None, fk_immediate=True,
-                 walkers=True, snapshots=True):
+                 walkers=True, snapshots=True, force_load=False):
         from pony import orm
         from pony.orm import core
         self.orm, self.core = orm, core
@@ -60,6 +60,10 @@ class Engine(object):
         self.diverged = None
         self.walkers = walkers
         self.snapshots = snapshots
+        self.force_load = force_load
+        self.refine_class = True
+        self.seed_reassigned = set()
+        self.seed_deleted = set()
         self.step_no = 0
         self.errlog = []
         self.unflushed = set()
@@ -70,6 +74,10 @@ class Engine(object):
 
     def report(self, monitor, kind, detail):
         self.c('report.%s.%s' % (monitor, kind))
+        sr = getattr(self, 'seed_reassigned', None)
+        if sr and isinstance(detail, dict): detail = dict(detail, seed_reassigned=sorted(map(list, sr)))
+        sd = getattr(self, 'seed_deleted', None)
+        if sd and isinstance(detail, dict): detail = dict(detail, seed_deleted=sorted(sd))
         self.reports.append(Report(monitor, kind, detail))
 
     def close(self):
@@ -110,6 +118,8 @@ class Engine(object):
         self.session.__enter__()
         self.session_no += 1
         self.h = {}; self.rev = {}
+        self.seed_reassigned = set()
+        self.seed_deleted = set()
         self.rec.tag('s%d' % self.session_no)
 
     def _exit_session(self, abort=False):
@@ -150,11 +160,28 @@ class Engine(object):
                                                                     'ids': [id(prev), id(pobj)]})
                 self.h[cand] = pobj; self.rev[id(pobj)] = cand
                 self.c('identity.registered')
+                if self._is_seed(pobj): self.c('seed_handles')
                 if type(pobj).__name__ != o.ent:
-                    self.report('class', 'wrong_class', {'where': where, 'oid': cand, 'got': type(pobj).__name__, 'want': o.ent})
+                    # a pk-only seed reached through a relationship carries the declared (base) class until it
+                    # is loaded; that is judged by C27, here the handle is refined so that later operations
+                    # address the real class
+                    self.c('class.seed_with_base_class')
+                    if self.refine_class:
+                        try: pobj.load()
+                        except Exception as e: self.c('class.refine_load_raised.' + type(e).__name__)
+                    if type(pobj).__name__ != o.ent:
+                        self.report('class', 'wrong_class', {'where': where, 'oid': cand, 'got': type(pobj).__name__,
+                                                             'want': o.ent, 'refined': self.refine_class})
                 return cand
         self.report('read', 'phantom_object', {'where': where, 'obj': repr(pobj), 'pk': list(pk)})
         return None
+
+    def _is_seed(self, pobj):
+        """pk-only object: known to the session through a foreign key / link row, its own row not loaded"""
+        cache = pobj._session_cache_
+        if cache is None or not cache.is_alive or pobj._status_ != 'loaded': return False
+        seeds = cache.seeds.get(type(pobj)._pk_attrs_)
+        return bool(seeds) and pobj in seeds
 
     def _norm_pk_item(self, x):
         if isinstance(x, self.core.Entity):
@@ -207,6 +234,8 @@ class Engine(object):
         if p is None:
             self.report('read', 'missing_object', {'oid': oid, 'ent': o.ent, 'pk': [repr(x) for x in pk], 'via': via})
             raise HarnessSkip('object not found')
+        if self.force_load:
+            p.load()      # deviation-rule replay: no pk-only seeds among the handles
         got = self.oid_of(p, 'obtain')
         if got != oid:
             self.report('read', 'wrong_object', {'oid': oid, 'got': got})
@@ -240,6 +269,16 @@ class Engine(object):
             ent = (key.entity if not isinstance(key, tuple) else key[0].entity).__name__
             snap['indexes'][ent + ':' + name] = {k: id(o) for k, o in index.items()}
         snap['to_save'] = [id(o) for o in cache.objects_to_save if o is not None]
+        pend = set()
+        for attr, objs in cache.modified_collections.items():
+            if not attr.reverse.is_collection: continue
+            for obj in objs:
+                sd = obj._vals_.get(attr) if obj._vals_ is not None else None
+                if sd is None: continue
+                if sd.added or sd.removed:
+                    pend.add((attr.name, id(obj), frozenset(map(id, sd.added or ())), frozenset(map(id, sd.removed or ()))))
+        snap['pending_links'] = pend
+        snap['keep'] = [list(objs) for objs in cache.modified_collections.values()]   # keep ids stable
         return snap
 
     def compare_snapshots(self, before, after):
@@ -279,18 +318,29 @@ class Engine(object):
                 new_nonloaded.add(oid_)
                 if oid_ in after['to_save']: diffs.append(('new_object_pending', repr(obj), status))
         old_ids = set(before['objs']) | new_nonloaded
+
+        def newly_loaded(index_name, oid_):
+            # a key attribute that was not loaded before the call (pk-only seed, lazy attribute) and is
+            # loaded now legitimately gets its index entry during the call
+            b = before['objs'].get(oid_)
+            if b is None: return False
+            names = index_name.split(':', 1)[1].split(',')
+            return any(n not in b[2] for n in names)
         for name, idx in before['indexes'].items():
             idx2 = after['indexes'].get(name, {})
             for k, o in idx.items():
                 if idx2.get(k) != o: diffs.append(('index_entry_changed', name, repr(k)))
             for k, o in idx2.items():
-                if k not in idx and o in old_ids: diffs.append(('index_entry_added', name, repr(k)))
+                if k not in idx and o in old_ids and not newly_loaded(name, o):
+                    diffs.append(('index_entry_added', name, repr(k)))
         for name, idx2 in after['indexes'].items():
             if name in before['indexes']: continue
             for k, o in idx2.items():
-                if o in old_ids: diffs.append(('index_entry_added', name, repr(k)))
+                if o in old_ids and not newly_loaded(name, o): diffs.append(('index_entry_added', name, repr(k)))
         if before['to_save'] != after['to_save']:
             diffs.append(('pending_writes', len(before['to_save']), len(after['to_save'])))
+        if before['pending_links'] != after['pending_links']:
+            diffs.append(('pending_link_changes', len(before['pending_links']), len(after['pending_links'])))
         return diffs
 
     def walk(self):
